@@ -25,7 +25,7 @@ MODES = (None, "2-point", "3-point", "cs")
 
 def floors(tier):
     return {"fd_runs": 600, "stencil_points_checked": 20000, "value_comparisons": 250, "runs_active_bound_at_optimum": 250,
-            "mode:None": 100, "mode:2-point": 100, "mode:3-point": 100, "mode:cs": 40, "degenerate_side_runs": 40, "__nontrivial__": 200}
+            "mode:None": 100, "mode:2-point": 100, "mode:3-point": 100, "mode:cs": 40, "degenerate_side_runs": 40, "settings_leak_checks": 60, "__nontrivial__": 200}
 
 
 def cases(tier, seed):
@@ -33,7 +33,7 @@ def cases(tier, seed):
     nprob = 260 if tier == "quick" else 8000
     for i in range(nprob):
         fam = gen.pick(rng, list(CONVEX) * 2 + list(OTHER))
-        ps = gen.rand_spec(rng, (fam,), nmax=7, boxes=("mixed", "boxed", "narrow", "narrow_far", "lower", "upper", "boxed_degenerate", "boxed_degenerate"),
+        ps = gen.rand_spec(rng, (fam,), nmax=7, boxes=("mixed", "boxed", "narrow", "narrow_far", "lower", "upper", "boxed_degenerate", "boxed_degenerate", "nonneg", "unit", "zero_mixed"),
                            starts=("face", "vertex", "outward", "interior"), condmax=1e3)
         yield {"problem": ps, "maxcor": int(rng.integers(1, 9)), "eps": float(gen.pick(rng, [1e-8, 1e-6])),
                "rel": gen.pick(rng, [None, None, 1e-7]), "maxls": int(gen.pick(rng, [5, 20]))}
@@ -87,6 +87,24 @@ def run(spec):
         touched_before_last = any(np.any(((r["xk"] == P.lb) | (r["xk"] == P.ub)) & (P.lb < P.ub)) for r in tr.cb[:-1])
         if active_end and touched_before_last:
             keys.add(f"{fam}/{P.n}/{P.spec['seed']}/{mode}")
+    # the step / scheme settings of one call must not leak into a later call: the first finite-difference run is repeated after
+    # runs with other settings, with default steps, and must evaluate exactly the same points
+    if not out.violations:
+        dflt = dict(base, jac="2-point")
+        dflt.pop("eps", None)
+        dflt.pop("finite_diff_rel_step", None)
+        first = probes.run_min(P, dflt)
+        probes.run_min(P, dict(base, jac=None, eps=1e-2))
+        probes.run_min(P, dict(base, jac="3-point", finite_diff_rel_step=1e-3))
+        again = probes.run_min(P, dflt)
+        out.count("settings_leak_checks")
+        if first.exc is None and again.exc is None:
+            same = len(first.evals) == len(again.evals) and all(a[0] == b[0] and np.array_equal(a[1], b[1]) for a, b in zip(first.evals, again.evals))
+            if not same:
+                k = next((i for i, (a, b) in enumerate(zip(first.evals, again.evals)) if not np.array_equal(a[1], b[1])), min(len(first.evals), len(again.evals)))
+                out.violate("differencing_settings_leak_between_calls", f"{fam} n={P.n}: a '2-point' run with default steps evaluates different points after "
+                            f"runs with eps=1e-2 / finite_diff_rel_step=1e-3 were made in the same process (first difference at evaluation #{k})",
+                            family=fam, mode="2-point")
     out.keys = keys
     out.nontrivial = bool(keys)
     out.sample = dict(spec=spec, lb=P.lb, ub=P.ub, x0=P.x0, exact_fun=None if exact.exc is not None else exact.snap["fun"])
